@@ -289,10 +289,14 @@ func (fr *Frame) applyExtern(ins *ssa.Call, fc *FuncContract, fo *types.Func, re
 	ex := fr.ex
 	vc := ex.vc
 	sig := fo.Type().(*types.Signature)
+	interior := map[string]*Place{}
 	toT := func(v Val) TVal {
 		if v.place != nil && !(v.place.kind == pkHeap && len(v.place.path) == 0) {
-			// interior pointer handed to a dependency: read-only use, pass a phantom reference
-			return TVal{t: fr.materialize(st, v.place), typ: v.typ}
+			// interior pointer handed to a dependency: a phantom reference stands for it in the contract; a
+			// `modifies *p` on it is mapped back to the sub-object of its holder (below)
+			t := fr.materialize(st, v.place)
+			interior[t] = v.place
+			return TVal{t: t, typ: v.typ}
 		}
 		if v.fn != nil || v.closure != nil {
 			return TVal{t: fnArgTerm(vc, v), typ: v.typ}
@@ -357,6 +361,25 @@ func (fr *Frame) applyExtern(ins *ssa.Call, fc *FuncContract, fo *types.Func, re
 		} else {
 			ts, whole := ex.resolveTargets(tc, fc.Modifies)
 			tc.flush()
+			for i, t := range ts {
+				pl, ok := interior[t.ref]
+				if !ok || t.isMap {
+					continue
+				}
+				if pl.kind != pkHeap || pl.phantom {
+					unsup("dependency %s modifies memory behind an interior pointer that is not a field of a heap object", fo.Name())
+				}
+				var path []int
+				for _, sl := range pl.path {
+					if sl.field < 0 {
+						unsup("dependency %s modifies an array element behind an interior pointer", fo.Name())
+					}
+					path = append(path, sl.field)
+				}
+				k, srt := ex.eng.S.heapKeyPtr(pl.root)
+				vc.heapSorts[k] = srt
+				ts[i] = modTarget{heapKey: k, ref: pl.ref, path: append(path, t.path...), elem: pl.root, src: t.src, def: t.def}
+			}
 			for _, t := range ts {
 				ex.frameCheck(fr, st, t, ins.Pos())
 			}
